@@ -3,10 +3,10 @@
 package tcell
 
 import (
-	"unicode/utf8"
 	"bytes"
-	"github.com/gdamore/tcell/v2/terminfo"
 	"errors"
+	"github.com/gdamore/tcell/v2/terminfo"
+	"unicode/utf8"
 
 	gencoding "github.com/gdamore/encoding"
 	"golang.org/x/text/transform"
